@@ -49,63 +49,88 @@ t_long __gmpz_get_si(mpz_srcptr z) { __CPROVER_assert(MPZ_SET(z), "gmp-pre: mpz_
 t_ulong __gmpz_get_ui(mpz_srcptr z) { __CPROVER_assert(MPZ_SET(z), "gmp-pre: mpz_get_ui reads a value");
   if (z->g_fl && z->g_val >= 0) return (t_ulong)z->g_val; t_ulong r = nondet_ulong();
   return r; }
-#define OSMT_MPQ_BIN(name, text) \
+/* provenance: the result object remembers which operation produced it from which operand identities (captured before the
+   result is overwritten -- GMP allows r to alias an operand) */
+#define OSMT_PROV(r, op, a, b) { t_long an_ = (a)->_mp_num.g_val, ad_ = (a)->_mp_den.g_val, bn_ = (b)->_mp_num.g_val, bd_ = (b)->_mp_den.g_val; \
+  g_gmp_arith = 1; osmt_havoc_mpq(r); (r)->g_op = (op); (r)->g_an = an_; (r)->g_ad = ad_; (r)->g_bn = bn_; (r)->g_bd = bd_; }
+#define OSMT_MPQ_BIN(name, text, op) \
 void name(mpq_ptr r, mpq_srcptr a, mpq_srcptr b) { \
   __CPROVER_assert(MPQ_INIT(r), "gmp-pre: " text " result initialised"); \
   __CPROVER_assert(MPQ_SET(a), "gmp-pre: " text " first operand holds a value"); \
   __CPROVER_assert(MPQ_SET(b), "gmp-pre: " text " second operand holds a value"); \
-  g_gmp_arith = 1; osmt_havoc_mpq(r); }
-OSMT_MPQ_BIN(__gmpq_add, "mpq_add")
-OSMT_MPQ_BIN(__gmpq_sub, "mpq_sub")
-OSMT_MPQ_BIN(__gmpq_mul, "mpq_mul")
+  OSMT_PROV(r, op, a, b) }
+OSMT_MPQ_BIN(__gmpq_add, "mpq_add", OSMT_OP_ADD)
+OSMT_MPQ_BIN(__gmpq_sub, "mpq_sub", OSMT_OP_SUB)
+void __gmpq_mul(mpq_ptr r, mpq_srcptr a, mpq_srcptr b) {
+  __CPROVER_assert(MPQ_INIT(r), "gmp-pre: mpq_mul result initialised");
+  __CPROVER_assert(MPQ_SET(a), "gmp-pre: mpq_mul first operand holds a value");
+  __CPROVER_assert(MPQ_SET(b), "gmp-pre: mpq_mul second operand holds a value");
+  t_int s = a->_mp_num.g_sgn * b->_mp_num.g_sgn;
+  OSMT_PROV(r, OSMT_OP_MUL, a, b) __CPROVER_assume(r->_mp_num.g_sgn == s); }
 void __gmpq_div(mpq_ptr r, mpq_srcptr a, mpq_srcptr b) {
   __CPROVER_assert(MPQ_INIT(r), "gmp-pre: mpq_div result initialised");
   __CPROVER_assert(MPQ_SET(a), "gmp-pre: mpq_div first operand holds a value");
   __CPROVER_assert(MPQ_SET(b), "gmp-pre: mpq_div second operand holds a value");
   __CPROVER_assert(b->_mp_num.g_sgn != 0, "gmp-pre: mpq_div divisor non-zero");
-  g_gmp_arith = 1; osmt_havoc_mpq(r); }
+  t_int s = a->_mp_num.g_sgn * b->_mp_num.g_sgn;
+  OSMT_PROV(r, OSMT_OP_DIV, a, b) __CPROVER_assume(r->_mp_num.g_sgn == s); }
 void __gmpq_neg(mpq_ptr r, mpq_srcptr a) {
   __CPROVER_assert(MPQ_INIT(r), "gmp-pre: mpq_neg result initialised"); __CPROVER_assert(MPQ_SET(a), "gmp-pre: mpq_neg operand holds a value");
   t_int s = a->_mp_num.g_sgn; t_bool fl = a->_mp_num.g_fl; t_long v = a->_mp_num.g_val; __mpz_struct d = a->_mp_den;
+  t_long idn = a->_mp_num.g_val, idd = a->_mp_den.g_val;
   if (fl && v > -9223372036854775807l-1) osmt_set_long(&r->_mp_num, -v); else { osmt_havoc_mpz(&r->_mp_num, -s, -s); }
+  r->g_op = OSMT_OP_NEG; r->g_an = idn; r->g_ad = idd;
   r->_mp_den.g_set = 1; r->_mp_den.g_fs = d.g_fs; r->_mp_den.g_fu = d.g_fu; r->_mp_den.g_fl = d.g_fl; r->_mp_den.g_val = d.g_val; r->_mp_den.g_sgn = d.g_sgn; r->_mp_den._mp_size = d._mp_size; }
 void __gmpq_inv(mpq_ptr r, mpq_srcptr a) {
   __CPROVER_assert(MPQ_INIT(r), "gmp-pre: mpq_inv result initialised"); __CPROVER_assert(MPQ_SET(a), "gmp-pre: mpq_inv operand holds a value");
   __CPROVER_assert(a->_mp_num.g_sgn != 0, "gmp-pre: mpq_inv operand non-zero");
-  t_int s = a->_mp_num.g_sgn; g_gmp_arith = 1; osmt_havoc_mpq(r); __CPROVER_assume(r->_mp_num.g_sgn == s); }
+  t_int s = a->_mp_num.g_sgn; OSMT_PROV(r, OSMT_OP_INV, a, a) __CPROVER_assume(r->_mp_num.g_sgn == s); }
 void __gmpq_set(mpq_ptr r, mpq_srcptr a) {
   __CPROVER_assert(MPQ_INIT(r), "gmp-pre: mpq_set result initialised"); __CPROVER_assert(MPQ_SET(a), "gmp-pre: mpq_set operand holds a value");
   __mpz_struct n = a->_mp_num, d = a->_mp_den;
   r->_mp_num.g_set = 1; r->_mp_num.g_fs = n.g_fs; r->_mp_num.g_fu = n.g_fu; r->_mp_num.g_fl = n.g_fl; r->_mp_num.g_val = n.g_val; r->_mp_num.g_sgn = n.g_sgn; r->_mp_num._mp_size = n._mp_size;
   r->_mp_den.g_set = 1; r->_mp_den.g_fs = d.g_fs; r->_mp_den.g_fu = d.g_fu; r->_mp_den.g_fl = d.g_fl; r->_mp_den.g_val = d.g_val; r->_mp_den.g_sgn = d.g_sgn; r->_mp_den._mp_size = d._mp_size; }
-t_int __gmpq_cmp(mpq_srcptr a, mpq_srcptr b) { __CPROVER_assert(MPQ_SET(a), "gmp-pre: mpq_cmp first operand holds a value"); __CPROVER_assert(MPQ_SET(b), "gmp-pre: mpq_cmp second operand holds a value"); return nondet_int(); }
-t_int __gmpq_equal(mpq_srcptr a, mpq_srcptr b) { __CPROVER_assert(MPQ_SET(a), "gmp-pre: mpq_equal first operand holds a value"); __CPROVER_assert(MPQ_SET(b), "gmp-pre: mpq_equal second operand holds a value"); return nondet_bool(); }
+t_int __gmpq_cmp(mpq_srcptr a, mpq_srcptr b) { __CPROVER_assert(MPQ_SET(a), "gmp-pre: mpq_cmp first operand holds a value"); __CPROVER_assert(MPQ_SET(b), "gmp-pre: mpq_cmp second operand holds a value");
+  t_int r = nondet_int(); t_int sa = a->_mp_num.g_sgn, sb = b->_mp_num.g_sgn;
+  /* what the abstraction knows: different signs decide the comparison; identical exact pairs are equal */
+  if (sa < sb) __CPROVER_assume(r < 0); if (sa > sb) __CPROVER_assume(r > 0);
+  if (a->_mp_num.g_fl && b->_mp_num.g_fl && a->_mp_den.g_fl && b->_mp_den.g_fl && a->_mp_den.g_val == b->_mp_den.g_val)
+    __CPROVER_assume((r < 0) == (a->_mp_num.g_val < b->_mp_num.g_val) && (r > 0) == (a->_mp_num.g_val > b->_mp_num.g_val));
+  return r; }
+t_int __gmpq_equal(mpq_srcptr a, mpq_srcptr b) { __CPROVER_assert(MPQ_SET(a), "gmp-pre: mpq_equal first operand holds a value"); __CPROVER_assert(MPQ_SET(b), "gmp-pre: mpq_equal second operand holds a value");
+  t_int r = nondet_bool();
+  if (a->_mp_num.g_sgn != b->_mp_num.g_sgn) return 0;
+  if (a->_mp_num.g_fl && b->_mp_num.g_fl && a->_mp_den.g_fl && b->_mp_den.g_fl) return a->_mp_num.g_val == b->_mp_num.g_val && a->_mp_den.g_val == b->_mp_den.g_val;
+  /* canonical forms are unique: a value known exactly differs from one that does not fit a long */
+  if ((a->_mp_num.g_fl != b->_mp_num.g_fl) || (a->_mp_den.g_fl != b->_mp_den.g_fl)) return 0;
+  return r; }
 void __gmpq_set_ui(mpq_ptr r, t_ulong n, t_ulong d) { __CPROVER_assert(MPQ_INIT(r), "gmp-pre: mpq_set_ui result initialised");
   __gmpz_set_ui(&r->_mp_num, n); __gmpz_set_ui(&r->_mp_den, d); }
 void __gmpq_set_si(mpq_ptr r, t_long n, t_ulong d) { __CPROVER_assert(MPQ_INIT(r), "gmp-pre: mpq_set_si result initialised");
   __gmpz_set_si(&r->_mp_num, n); __gmpz_set_ui(&r->_mp_den, d); }
-#define OSMT_MPZ_DIV(name, text) \
+#define OSMT_ZPROV(q, op, n, d) { t_long a_ = (n)->g_val, b_ = (d)->g_val; g_gmp_arith = 1; osmt_havoc_mpz(q, ((op) == OSMT_OP_GCD || (op) == OSMT_OP_LCM) ? 0 : -1, 1); (q)->g_zop = (op); (q)->g_za = a_; (q)->g_zb = b_; }
+#define OSMT_MPZ_DIV(name, text, op) \
 void name(mpz_ptr q, mpz_srcptr n, mpz_srcptr d) { \
   __CPROVER_assert(MPZ_INIT(q), "gmp-pre: " text " result initialised"); \
   __CPROVER_assert(MPZ_SET(n), "gmp-pre: " text " dividend holds a value"); \
   __CPROVER_assert(MPZ_SET(d), "gmp-pre: " text " divisor holds a value"); \
   __CPROVER_assert(d->g_sgn != 0, "gmp-pre: " text " divisor non-zero"); \
-  g_gmp_arith = 1; osmt_havoc_mpz(q, -1, 1); }
-OSMT_MPZ_DIV(__gmpz_cdiv_q, "mpz_cdiv_q")
-OSMT_MPZ_DIV(__gmpz_fdiv_q, "mpz_fdiv_q")
-OSMT_MPZ_DIV(__gmpz_divexact, "mpz_divexact")
-OSMT_MPZ_DIV(__gmpz_tdiv_q, "mpz_tdiv_q")
-#define OSMT_MPZ_BIN(name, text) \
+  OSMT_ZPROV(q, op, n, d) }
+OSMT_MPZ_DIV(__gmpz_cdiv_q, "mpz_cdiv_q", OSMT_OP_CDIV)
+OSMT_MPZ_DIV(__gmpz_fdiv_q, "mpz_fdiv_q", OSMT_OP_FDIV)
+OSMT_MPZ_DIV(__gmpz_divexact, "mpz_divexact", OSMT_OP_DIVEXACT)
+OSMT_MPZ_DIV(__gmpz_tdiv_q, "mpz_tdiv_q", OSMT_OP_TDIV)
+#define OSMT_MPZ_BIN(name, text, op) \
 void name(mpz_ptr q, mpz_srcptr n, mpz_srcptr d) { \
   __CPROVER_assert(MPZ_INIT(q), "gmp-pre: " text " result initialised"); \
   __CPROVER_assert(MPZ_SET(n), "gmp-pre: " text " first operand holds a value"); \
   __CPROVER_assert(MPZ_SET(d), "gmp-pre: " text " second operand holds a value"); \
-  g_gmp_arith = 1; osmt_havoc_mpz(q, -1, 1); }
-OSMT_MPZ_BIN(__gmpz_gcd, "mpz_gcd")
-OSMT_MPZ_BIN(__gmpz_lcm, "mpz_lcm")
-OSMT_MPZ_BIN(__gmpz_mul, "mpz_mul")
-OSMT_MPZ_BIN(__gmpz_add, "mpz_add")
-OSMT_MPZ_BIN(__gmpz_sub, "mpz_sub")
+  OSMT_ZPROV(q, op, n, d) }
+OSMT_MPZ_BIN(__gmpz_gcd, "mpz_gcd", OSMT_OP_GCD)
+OSMT_MPZ_BIN(__gmpz_lcm, "mpz_lcm", OSMT_OP_LCM)
+OSMT_MPZ_BIN(__gmpz_mul, "mpz_mul", OSMT_OP_MUL)
+OSMT_MPZ_BIN(__gmpz_add, "mpz_add", OSMT_OP_ADD)
+OSMT_MPZ_BIN(__gmpz_sub, "mpz_sub", OSMT_OP_SUB)
 /* the thread-local scratch integer FastRational::temp (an mpz_class; constructed => initialised, holds 0) */
 x___gmp_expr_mpz_t_mpz_t g_FastRational__temp_obj;
 __mpz_struct *__gmp_expr_mpz_t_mpz_t__get_mpz_t(void *self, ...) { __mpz_struct *z = &((x___gmp_expr_mpz_t_mpz_t *)self)->z; __CPROVER_assume(z->g_init); return z; }
